@@ -27,6 +27,7 @@ RULE = (
 )
 RULE += '; a disposable may yield exactly one state object that is falsy'
 RULE += '; body outcomes include a falsy exception instance; disposables may fail with a non-Exception BaseException'
+RULE += '; disposables may compare equal to each other'
 LEVEL_TEXT = (
     "Fault enumeration: the disposable behaviour space is enumerated completely for <=2 disposables (thorough) and "
     "sampled for 3-4; for cancelled bodies every loop iteration is a crash point. The oracle is the doubles' call ledger: "
@@ -310,9 +311,9 @@ def _disp_strategy():
     mostly_ok = st.one_of(st.just({"b": "ok"}), st.just({"b": "ok"}), beh)
     exit_beh = st.one_of(beh, beh, beh, st.just({"b": "ok", "ret": True}))
     return st.builds(
-        lambda e, y, x, a: {"enter": e, "yields": y, "exit": x, "as": a},
+        lambda e, y, x, a, tw: {"enter": e, "yields": y, "exit": x, "as": a, "twin": tw},
         # also a single state whose instance is FALSY, yielded directly (not wrapped in a list)
-        mostly_ok, st.sampled_from([*YIELDS, {"type": "F", "v": 4}, {"type": "F", "v": 5}]), exit_beh, st.sampled_from(["list", "list", "iter", "gen"]),
+        mostly_ok, st.sampled_from([*YIELDS, {"type": "F", "v": 4}, {"type": "F", "v": 5}]), exit_beh, st.sampled_from(["list", "list", "iter", "gen"]), st.sampled_from([False, False, True]),
     )  # fmt: skip
 
 
